@@ -191,3 +191,15 @@ func SRPServerM2(A, m1, key []byte) []byte {
 // path has verified a client proof.
 func SRPProofVerified(i int) bool { return i < len(srpSessionList) && srpSessionList[i].ProofVerified }
 func SRPSessionCount() int        { return len(srpSessionList) }
+
+// SRPClientPublic is the client's public value A = g^a mod N as an uninterpreted function
+// of a (never 0 mod N for an honest client).
+func SRPClientPublic(a []byte) []byte {
+	A := verif.UF("SRP-A:rfc5054.3072", 384, a)
+	nz := false
+	for _, c := range A {
+		nz = verif.Or(nz, c != 0)
+	}
+	verif.Assume(nz)
+	return A
+}
